@@ -11,33 +11,46 @@ use crate::common::*;
 use crate::ensure;
 use crate::gen::{self, class_num, AttrSpec, MsgSpec};
 use crate::refattrs::{self, err_name};
-use crate::refimpl;
-use crate::refstun::{self, RefParse, T_FP, T_MI, T_SHA256};
+use crate::refstun::{self, T_FP, T_MI, T_SHA256};
 
 #[derive(Debug, Clone, Serialize, Deserialize)]
 pub struct Case(pub MsgSpec);
 
-pub fn expected_list(spec: &MsgSpec, built: &[u8]) -> Vec<(u16, Vec<u8>)> {
-    // ordinary attributes by reference encoding, sealing attributes recomputed over the built bytes
-    let mut out: Vec<(u16, Vec<u8>)> = spec.all_attrs().iter().map(|a| (a.ty(), a.ref_value(spec.tid))).collect();
-    let mut off = 20 + out.iter().map(|(_, v)| 4 + refstun::pad4(v.len())).sum::<usize>();
-    let key = spec.creds.key();
+/// What must be read back: (type, value bytes if they are prescribed by the program itself).
+/// Raw attributes prescribe their bytes; for typed attributes the typed value is compared instead
+/// (their wire layout is C08's business); the sealing attributes must be present in order with
+/// their length (their values are C04's / C09's business).
+pub fn expected_list(spec: &MsgSpec) -> Vec<(u16, Option<Vec<u8>>, Option<usize>)> {
+    let mut out: Vec<(u16, Option<Vec<u8>>, Option<usize>)> = spec
+        .all_attrs()
+        .iter()
+        .map(|a| match a {
+            AttrSpec::Raw { ty, value } => (*ty, Some(value.0.clone()), Some(value.0.len())),
+            AttrSpec::Typed { kind, .. } => (kind.code(), None, None),
+        })
+        .collect();
     if spec.seal.mi {
-        if off <= built.len() {
-            out.push((T_MI, refimpl::hmac_sha1(&key, &refstun::hmac_input(built, off, 20)).to_vec()));
-        }
-        off += 24;
+        out.push((T_MI, None, Some(20)));
     }
     if spec.seal.sha256 {
-        if off <= built.len() {
-            out.push((T_SHA256, refimpl::hmac_sha256(&key, &refstun::hmac_input(built, off, 32)).to_vec()));
-        }
-        off += 36;
+        out.push((T_SHA256, None, Some(32)));
     }
-    if spec.seal.fp && off <= built.len() {
-        out.push((T_FP, refstun::fingerprint_value(built, off).to_be_bytes().to_vec()));
+    if spec.seal.fp {
+        out.push((T_FP, None, Some(4)));
     }
     out
+}
+
+fn matches(got: &[(u16, Vec<u8>)], want: &[(u16, Option<Vec<u8>>, Option<usize>)]) -> bool {
+    got.len() == want.len()
+        && got.iter().zip(want.iter()).all(|(g, w)| g.0 == w.0 && w.1.as_ref().map_or(true, |v| *v == g.1) && w.2.map_or(true, |l| l == g.1.len()))
+}
+
+fn show_want(l: &[(u16, Option<Vec<u8>>, Option<usize>)]) -> String {
+    l.iter()
+        .map(|(t, _, n)| format!("{:#06x}[{}]", t, n.map(|x| x.to_string()).unwrap_or_else(|| "?".into())))
+        .collect::<Vec<_>>()
+        .join(",")
 }
 
 fn show(l: &[(u16, Vec<u8>)]) -> String {
@@ -104,23 +117,26 @@ fn test(c: &Case, st: &mut Stats) -> TestResult {
         spec.method,
         spec.tid
     );
-    let want = expected_list(spec, &built);
+    let want = expected_list(spec);
     let got: Vec<(u16, Vec<u8>)> = msg
         .iter_attributes()
         .take(built.len() / 4 + 2)
         .map(|a| (a.get_type().value(), a.value.to_vec()))
         .collect();
-    if got != want {
-        let pos = got.iter().zip(want.iter()).position(|(g, w)| g != w).unwrap_or(got.len().min(want.len()));
+    if !matches(&got, &want) {
+        let pos = got
+            .iter()
+            .zip(want.iter())
+            .position(|(g, w)| !matches(std::slice::from_ref(g), std::slice::from_ref(w)))
+            .unwrap_or(got.len().min(want.len()));
         return Err(Fail::new(
             "c03-attrs",
             format!(
-                "attributes read back [{}] differ from what was built [{}] at index {}: {} vs {}",
+                "attributes read back [{}] differ from what was built [{}] at index {}: read value {}",
                 show(&got),
-                show(&want),
+                show_want(&want),
                 pos,
-                got.get(pos).map(|x| hex_short(&x.1)).unwrap_or_default(),
-                want.get(pos).map(|x| hex_short(&x.1)).unwrap_or_default()
+                got.get(pos).map(|x| hex_short(&x.1)).unwrap_or_default()
             ),
         ));
     }
@@ -140,50 +156,41 @@ fn test(c: &Case, st: &mut Stats) -> TestResult {
             );
         }
     }
+    // the sealing attributes read back through the typed accessors equal what iteration shows
     if spec.seal.mi {
         let a = msg
             .attribute::<MessageIntegrity>()
             .map_err(|e| Fail::new("c03-typed", format!("attribute::<MessageIntegrity>() fails: {}", err_name(&e))))?;
-        let w = want.iter().find(|x| x.0 == T_MI).unwrap();
-        ensure!(a.hmac()[..] == w.1[..], "c03-typed", "MessageIntegrity value differs from the reference HMAC");
+        let w = got.iter().find(|x| x.0 == T_MI).unwrap();
+        ensure!(a.hmac()[..] == w.1[..], "c03-typed", "MessageIntegrity value differs from the attribute in the message");
     }
     if spec.seal.sha256 {
         let a = msg
             .attribute::<MessageIntegritySha256>()
             .map_err(|e| Fail::new("c03-typed", format!("attribute::<MessageIntegritySha256>() fails: {}", err_name(&e))))?;
-        let w = want.iter().find(|x| x.0 == T_SHA256).unwrap();
-        ensure!(a.hmac() == &w.1[..], "c03-typed", "MessageIntegritySha256 value differs from the reference HMAC");
+        let w = got.iter().find(|x| x.0 == T_SHA256).unwrap();
+        ensure!(a.hmac() == &w.1[..], "c03-typed", "MessageIntegritySha256 value differs from the attribute in the message");
     }
     if spec.seal.fp {
-        let a = msg
-            .attribute::<Fingerprint>()
+        msg.attribute::<Fingerprint>()
             .map_err(|e| Fail::new("c03-typed", format!("attribute::<Fingerprint>() fails: {}", err_name(&e))))?;
-        let w = want.iter().find(|x| x.0 == T_FP).unwrap();
-        let crc = u32::from_be_bytes([w.1[0], w.1[1], w.1[2], w.1[3]]) ^ refstun::FP_XOR;
-        ensure!(
-            a.fingerprint()[..] == crc.to_be_bytes()[..],
-            "c03-typed",
-            "Fingerprint value differs from the reference CRC"
-        );
     }
-    // the independent decoder must read the same thing (guards the oracle and the wire layout)
-    match refstun::parse(&built) {
-        RefParse::Accept(r) => {
-            let all: Vec<(u16, Vec<u8>)> = r.attrs.iter().map(|a| (a.ty, a.value(&built).to_vec())).collect();
-            ensure!(
-                all == want && r.class == spec.class & 3 && r.method == spec.method & 0xfff && r.tid == spec.tid & gen::TID_MASK,
-                "c03-wire",
-                "an independent decoder reads [{}] from the built message, expected [{}]",
-                show(&all),
-                show(&want)
-            );
-        }
-        RefParse::Reject(c) => {
-            return Err(Fail::new(
-                "c03-wire",
-                format!("an independent decoder refuses the built message: {:?}; {}", c, hex_short(&built)),
-            ))
-        }
+    // an independent TLV walk of the buffer must show the same attributes at the same places
+    let (attrs, tiled) = refstun::walk(&built, built.len());
+    let all: Vec<(u16, Vec<u8>)> = attrs.iter().map(|a| (a.ty, a.value(&built).to_vec())).collect();
+    ensure!(
+        tiled && all == got,
+        "c03-wire",
+        "an independent TLV walk of the built message reads [{}], the library read back [{}]",
+        show(&all),
+        show(&got)
+    );
+    {
+        let mtype = u16::from_be_bytes([built[0], built[1]]);
+        let hdr_ok = refstun::type_decode(mtype) == Some((spec.class & 3, spec.method & 0xfff))
+            && built[4..8] == refstun::COOKIE.to_be_bytes()
+            && built[8..20] == (spec.tid & gen::TID_MASK).to_be_bytes()[4..];
+        ensure!(hdr_ok, "c03-wire", "header bytes {} do not encode class {} method {:#x} id {:#x}", hex(&built[..20]), spec.class & 3, spec.method & 0xfff, spec.tid);
     }
     let n = want.len();
     st.class(&format!(
@@ -206,7 +213,7 @@ fn test(c: &Case, st: &mut Stats) -> TestResult {
 pub fn run(ctx: &Ctx) -> EvidenceMeta {
     ctx.proptest(
         "builder-roundtrip",
-        ctx.n(5_000, 300_000),
+        ctx.n(30_000, 1_000_000),
         || gen::msg_spec(gen::seal_strategy(false, false), 8, 2).prop_map(Case),
         test,
     );
